@@ -42,7 +42,7 @@ type c06Case struct {
 func (c06) Cases(tier string, seed uint64) []core.Case {
 	n := 400
 	if tier == "thorough" {
-		n = 8000
+		n = 60000
 	}
 	r := core.NewRng(core.Mix(seed, 0xC06))
 	modes := []string{"seq", "hooked", "racing", "seq", "hooked"}
